@@ -1,5 +1,5 @@
-import JadeModel.Proofs.SystemStatus
-import JadeModel.Proofs.SystemOutcome
+import JadeModel.Proofs.SystemStatusDefs
+import JadeModel.Proofs.SystemOutcomeDefs
 
 set_option linter.unusedSimpArgs false
 
